@@ -76,6 +76,25 @@ def run(tier, seed, replay=None):
                      "opts": dict(opts, max_width=40), "want": [], "_pid": pid + ":dirty40"})
     for (pid, name, text, opts) in universe.option_pair_points(tier, seed):
         jobs.append({"id": len(jobs), "src": text, "opts": opts, "want": [], "_pid": pid})
+    # the template families re-indented with tabs / odd numbers of blanks
+    for (name, text) in universe.boundary_sources():
+        hn = core.fnv(name.encode())
+        if tier != "thorough" and hn % 4:
+            continue
+        for unit, tag in (("\t", "tab"), ("   ", "sp3"), (" ", "sp1")):
+            jobs.append({"id": len(jobs), "src": universe.reindent(text, unit),
+                         "opts": {"max_width": 100, "style_edition": universe.STYLE_EDITIONS[hn % 3]},
+                         "want": [], "_pid": f"{name}@w=100:reindent-{tag}"})
+    # barely usable pages (max_width / tab_spaces >= 5 holds, little more) on the template families
+    for (name, text) in universe.boundary_sources():
+        hn = core.fnv(("page" + name).encode())
+        if tier != "thorough" and hn % 3:
+            continue
+        for (w, ts) in ((40, 8), (45, 8), (47, 8), (30, 6), (24, 4), (20, 4), (35, 7)):
+            jobs.append({"id": len(jobs), "src": text,
+                         "opts": {"max_width": w, "tab_spaces": ts,
+                                  "style_edition": universe.STYLE_EDITIONS[hn % 3]},
+                         "want": [], "_pid": f"{name}@w={w},ts={ts}:page"})
     for i, text in enumerate(NON_ASCII):
         for d in dk:
             for w in (20, 40, 100):
@@ -149,6 +168,26 @@ def run(tier, seed, replay=None):
                 v.violation(f"cli-exit:{' '.join(r['_argv'])}",
                             f"`rustfmt {' '.join(r['_argv'])}` ends with status {r['o']['exit']}",
                             {"argv": r["_argv"], "observed": r["o"], "stderr": r["_stderr"]})
+        # informational commands with unusual PATH arguments
+        for argv in (["--print-config", "current", "/"], ["--print-config", "current", "."],
+                     ["--print-config", "current", ".."], ["--print-config", "current", "nosuch/x.rs"],
+                     ["--print-config", "minimal", "/"], ["--config-path", "/", "a.rs"],
+                     ["--config-path", "nosuch.toml", "a.rs"], ["/"], ["."], [""]):
+            dd = sc / "cli" / "odd"
+            dd.mkdir(exist_ok=True)
+            (dd / "a.rs").write_text("fn  main( ){}\n")
+            try:
+                r = subprocess.run([rustfmt] + argv, cwd=dd, env=core.run_env({"HOME": str(dd)}),
+                                   input=b"", capture_output=True, timeout=60)
+                code = r.returncode
+            except subprocess.TimeoutExpired:
+                code = 124
+            for x in dd.glob("rustc-ice-*.txt"):
+                x.unlink()
+            if code not in (0, 1):
+                v.violation(f"cli-exit:{' '.join(argv)}",
+                            f"`rustfmt {' '.join(argv)}` ends with status {code}",
+                            {"argv": argv, "stderr": r.stderr.decode("utf-8", "replace")[-800:]})
         seen_runs = set()
         for idx, f in ifails:
             r = irecs[idx]
